@@ -622,7 +622,7 @@ def check_choice(v, schema, named, data, tn):
 # ------------------------------------------------------------------ one mutation at one position
 WRONG_POOL = [None, True, 5, 2.5, "str", b"by", bytearray(b"ba"), [1], {"k": 1}, {1: 2}, [None], ("x", 1)]
 
-KINDS = ["wrong-type", "out-of-range-int", "bool-for-number", "wrong-fixed-size", "bytearray-for-fixed", "unknown-symbol",
+KINDS = ["wrong-type", "none-for-non-null", "none-for-defaulted-field", "out-of-range-int", "bool-for-number", "wrong-fixed-size", "bytearray-for-fixed", "unknown-symbol",
          "non-string-key", "missing-required-field", "missing-defaulted-field", "wrong-hint", "tuple-arity", "str-for-sequence"]
 
 
@@ -655,6 +655,8 @@ def sites(v, s, named, tn, rng, out, path=()):
     if wrong:
         w = rng.choice(wrong)
         add("wrong-type", lambda _x, w=w: copy.deepcopy(w))
+    if v is not None and not CC.conforms(None, s0, named, tn):
+        add("none-for-non-null", lambda _x: None)          # an explicit None where the type does not accept null
     if isinstance(s, list):
         if isinstance(v, tuple) and tn and len(v) == 2:
             names = [branch_label(b) for b in s]
@@ -710,6 +712,9 @@ def sites(v, s, named, tn, rng, out, path=()):
         if wrongname != s["name"]:
             add("wrong-hint", lambda x, w=wrongname: dict(x, **{"-type": w}))
         for f in s["fields"]:
+            if "default" in f and not CC.conforms(None, f["type"], named, tn):
+                # explicit None in a field that HAS a default and does not accept null (present or not before)
+                add("none-for-defaulted-field", lambda x, n=f["name"]: dict(x, **{n: None}))
             if f["name"] in v:
                 kind = "missing-defaulted-field" if "default" in f else "missing-required-field"
                 add(kind, lambda x, n=f["name"]: {k: val for k, val in x.items() if k != n})
